@@ -18,7 +18,7 @@ structure Info where
   deriving Repr
 
 structure Env where
-  podman : Str := s "/usr/bin/podman"
+  podman : Str := Gen.const_DEFAULT_PODMAN_BINARY
   isUser : Bool := false
   info : Str → Option Info          -- UnitsInfoMap, by file name
   pathExists : Str → Bool := fun _ => false
@@ -50,27 +50,30 @@ def extension (name : Str) : Str := match splitLast '.' name with | some (a, e) 
 def serviceFileName (i : Info) : Str := fileName (i.serviceName ++ s ".service")
 
 /-! ### podman command pieces -/
-def moduleArgs (u : SUnit) (sec : Str) : List Str := (lookupAll u sec (s "ContainersConfModule")).flatMap fun v => [s "--module", v]
+/-- `lookup_and_add_all_strings` over a table extracted from the source -/
+def addAllStrings0 (u : SUnit) (sec : Str) (rows : List (Str × Str)) : List Str :=
+  rows.flatMap fun (k, f) => (lookupAll u sec k).flatMap fun v => [f, v]
+def moduleArgs (u : SUnit) (sec : Str) : List Str := addAllStrings0 u sec Gen.tbl_get_base_podman_command_inline_lookup_and_add_all_strings
 def baseCmd (E : Env) (u : SUnit) (sec : Str) : List Str :=
   [E.podman] ++ moduleArgs u sec ++ lookupAllArgs u sec (s "GlobalArgs")
 
-def addString (u : SUnit) (sec : Str) (rows : List (String × String)) : List Str :=
-  rows.flatMap fun (k, f) => match lookup u sec (s k) with
-    | some v => if v.isEmpty then [] else [s f, v]
+def addString (u : SUnit) (sec : Str) (rows : List (Str × Str)) : List Str :=
+  rows.flatMap fun (k, f) => match lookup u sec k with
+    | some v => if v.isEmpty then [] else [f, v]
     | none => []
-def addAllStrings (u : SUnit) (sec : Str) (rows : List (String × String)) : List Str :=
-  rows.flatMap fun (k, f) => (lookupAll u sec (s k)).flatMap fun v => [s f, v]
-def addBool (u : SUnit) (sec : Str) (rows : List (String × String)) : List Str :=
-  rows.flatMap fun (k, f) => match lookupBool u sec (s k) with
-    | some true => [s f]
-    | some false => [s f ++ s "=false"]
+def addAllStrings (u : SUnit) (sec : Str) (rows : List (Str × Str)) : List Str :=
+  rows.flatMap fun (k, f) => (lookupAll u sec k).flatMap fun v => [f, v]
+def addBool (u : SUnit) (sec : Str) (rows : List (Str × Str)) : List Str :=
+  rows.flatMap fun (k, f) => match lookupBool u sec k with
+    | some true => [f]
+    | some false => [f ++ s "=false"]
     | none => []
 def addKeys (flag : String) (kvs : List (Str × Str)) : List Str := kvs.flatMap fun (k, v) => [s flag, k ++ '=' :: v]
 def podmanArgs (u : SUnit) (sec : Str) : List Str := lookupAllArgs u sec (s "PodmanArgs")
 
-def firstUnknown (es : Entries) (supported : List String) : Option Str :=
-  (es.find? (fun kv => !(supported.map s).contains kv.1)).map Prod.fst
-def checkUnknown (u : SUnit) (sec : Str) (supported : List String) : R Unit :=
+def firstUnknown (es : Entries) (supported : List Str) : Option Str :=
+  (es.find? (fun kv => !supported.contains kv.1)).map Prod.fst
+def checkUnknown (u : SUnit) (sec : Str) (supported : List Str) : R Unit :=
   match firstUnknown (entriesOf u sec) supported with
   | some k => .error (.unknownKey k)
   | none => .ok ()
@@ -100,12 +103,10 @@ def oneShot (svc : SUnit) (remain : Bool) : SUnit :=
   let svc := if (lookup svc (s "Service") (s "Type")).isNone then setS svc "Service" "Type" (s "oneshot") else svc
   if remain && (lookup svc (s "Service") (s "RemainAfterExit")).isNone then setS svc "Service" "RemainAfterExit" (s "yes") else svc
 
-def supportedQuadlet : List String := ["DefaultDependencies"]
+def supportedQuadlet : List Str := Gen.SUPPORTED_QUADLET_KEYS
 
 /-! ### .image -/
-def supportedImage : List String :=
-  ["AllTags","Arch","AuthFile","CertDir","ContainersConfModule","Creds","DecryptionKey","GlobalArgs","Image","ImageTag",
-   "PodmanArgs","OS","ServiceName","TLSVerify","Variant"]
+def supportedImage : List Str := Gen.SUPPORTED_IMAGE_KEYS
 
 def fromImage (E : Env) (path : Str) (u : SUnit) : R (SUnit × Str) := do
   let sec := s "Image"
@@ -118,9 +119,8 @@ def fromImage (E : Env) (path : Str) (u : SUnit) : R (SUnit × Str) := do
   let svc := renameSection svc (s "Quadlet") (s "X-Quadlet")
   let svc := addS svc "Unit" "RequiresMountsFor" (s "%t/containers")
   let cmd := baseCmd E u sec ++ [s "image", s "pull"]
-    ++ addString u sec [("Arch","--arch"),("AuthFile","--authfile"),("CertDir","--cert-dir"),("Creds","--creds"),
-                        ("DecryptionKey","--decryption-key"),("OS","--os"),("Variant","--variant")]
-    ++ addBool u sec [("AllTags","--all-tags"),("TLSVerify","--tls-verify")]
+    ++ addString u sec Gen.tbl_from_image_unit_string_keys
+    ++ addBool u sec Gen.tbl_from_image_unit_bool_keys
     ++ podmanArgs u sec ++ [imageName]
   let svc ← addRawExec svc "ExecStart" cmd
   let svc := oneShot svc true
@@ -219,7 +219,7 @@ def handleNetworks (E : Env) (u : SUnit) (sec : Str) (svc : SUnit) : R (List Str
     | none => if isCtr then pure (acc.1 ++ [s "--network", s "container:" ++ name], svc)
               else pure (acc.1 ++ [s "--network", name], svc)) ([], svc)
 
-def publishPorts (u : SUnit) (sec : Str) : List Str := addAllStrings u sec [("PublishPort","--publish")]
+def publishPorts (u : SUnit) (sec : Str) : List Str := addAllStrings u sec Gen.tbl_handle_publish_ports_inline_lookup_and_add_all_strings
 
 def commaJoin : List Str → Str
   | [] => []
@@ -270,8 +270,7 @@ def handleUserMappings (u : SUnit) (sec : Str) (supportManual : Bool) : R (List 
   handleUserRemap u sec supportManual
 
 /-! ### .volume -/
-def supportedVolume : List String :=
-  ["ContainersConfModule","Copy","Device","Driver","GlobalArgs","Group","Image","Label","Options","PodmanArgs","ServiceName","Type","User","VolumeName"]
+def supportedVolume : List Str := Gen.SUPPORTED_VOLUME_KEYS
 
 def fromVolume (E : Env) (path : Str) (u : SUnit) : R (SUnit × Str) := do
   let sec := s "Volume"
@@ -315,9 +314,7 @@ def fromVolume (E : Env) (path : Str) (u : SUnit) : R (SUnit × Str) := do
   pure (oneShot svc true, volName)
 
 /-! ### .network -/
-def supportedNetwork : List String :=
-  ["ContainersConfModule","DisableDNS","DNS","Driver","Gateway","GlobalArgs","Internal","IPAMDriver","IPRange","IPv6","Label",
-   "NetworkName","Options","PodmanArgs","ServiceName","Subnet"]
+def supportedNetwork : List Str := Gen.SUPPORTED_NETWORK_KEYS
 
 def fromNetwork (E : Env) (path : Str) (u : SUnit) : R (SUnit × Str) := do
   let sec := s "Network"
@@ -330,9 +327,9 @@ def fromNetwork (E : Env) (path : Str) (u : SUnit) : R (SUnit × Str) := do
   let netName := if nn.isEmpty then s "systemd-" ++ fileStem (fileName path) else nn
   let svc := addS svc "Unit" "RequiresMountsFor" (s "%t/containers")
   let cmd0 := baseCmd E u sec ++ [s "network", s "create", s "--ignore"]
-    ++ addBool u sec [("DisableDNS","--disable-dns"),("Internal","--internal"),("IPv6","--ipv6")]
-    ++ addString u sec [("Driver","--driver"),("IPAMDriver","--ipam-driver")]
-    ++ addAllStrings u sec [("DNS","--dns")]
+    ++ addBool u sec Gen.tbl_from_network_unit_bool_keys
+    ++ addString u sec Gen.tbl_from_network_unit_string_keys
+    ++ addAllStrings u sec Gen.tbl_from_network_unit_inline_lookup_and_add_all_strings
   let subnets := lookupAll u sec (s "Subnet")
   let gateways := lookupAll u sec (s "Gateway")
   let ranges := lookupAll u sec (s "IPRange")
@@ -350,10 +347,7 @@ def fromNetwork (E : Env) (path : Str) (u : SUnit) : R (SUnit × Str) := do
   pure (oneShot svc true, netName)
 
 /-! ### .pod -/
-def supportedPod : List String :=
-  ["AddHost","ContainersConfModule","DNS","DNSOption","DNSSearch","GIDMap","GlobalArgs","IP","IP6","Network","NetworkAlias",
-   "PodmanArgs","PodName","PublishPort","RemapGid","RemapUid","RemapUidSize","RemapUsers","ServiceName","SubGIDMap","SubUIDMap",
-   "UIDMap","UserNS","Volume"]
+def supportedPod : List Str := Gen.SUPPORTED_POD_KEYS
 
 def fromPod (E : Env) (path : Str) (u : SUnit) (containersToStart : List Str) : R SUnit := do
   let sec := s "Pod"
@@ -375,9 +369,8 @@ def fromPod (E : Env) (path : Str) (u : SUnit) (containersToStart : List Str) : 
     s "--exit-policy=stop", s "--replace"]
   let maps ← handleUserMappings u sec true
   let (nets, svc) ← handleNetworks E u sec svc
-  let mid := addString u sec [("IP","--ip"),("IP6","--ip6")]
-    ++ addAllStrings u sec [("NetworkAlias","--network-alias"),("DNS","--dns"),("DNSOption","--dns-option"),
-                            ("DNSSearch","--dns-search"),("AddHost","--add-host")]
+  let mid := addString u sec Gen.tbl_from_pod_unit_string_keys
+    ++ addAllStrings u sec Gen.tbl_from_pod_unit_all_string_keys
   let (vols, svc) ← handleVolumes E path u sec svc
   let pre := pre0 ++ maps ++ publishPorts u sec ++ nets ++ mid ++ vols
     ++ [s "--infra-name", podName ++ s "-infra", s "--name", podName] ++ podmanArgs u sec
@@ -440,10 +433,7 @@ def logDriver (u : SUnit) (sec : Str) : List Str :=
 def logOpt (u : SUnit) (sec : Str) : List Str := (lookupAllStrv u sec (s "LogOpt")).flatMap fun o => [s "--log-opt", o]
 
 /-! ### .kube -/
-def supportedKube : List String :=
-  ["AutoUpdate","ConfigMap","ContainersConfModule","ExitCodePropagation","GlobalArgs","KubeDownForce","LogDriver","LogOpt",
-   "Network","PodmanArgs","PublishPort","RemapGid","RemapUid","RemapUidSize","RemapUsers","ServiceName","SetWorkingDirectory",
-   "UserNS","Yaml"]
+def supportedKube : List Str := Gen.SUPPORTED_KUBE_KEYS
 
 def killMode (svcOrUnit : SUnit) (svc : SUnit) : R SUnit :=
   match lookup svcOrUnit (s "Service") (s "KillMode") with
@@ -490,10 +480,7 @@ def fromKube (E : Env) (path : Str) (u : SUnit) : R SUnit := do
   pure svc
 
 /-! ### .build -/
-def supportedBuild : List String :=
-  ["Annotation","Arch","AuthFile","ContainersConfModule","DNS","DNSOption","DNSSearch","Environment","File","ForceRM","GlobalArgs",
-   "GroupAdd","ImageTag","Label","Network","PodmanArgs","Pull","Secret","ServiceName","SetWorkingDirectory","Target","TLSVerify",
-   "Variant","Volume"]
+def supportedBuild : List Str := Gen.SUPPORTED_BUILD_KEYS
 
 def builtImageName (u : SUnit) : Option Str := (lookupAll u (s "Build") (s "ImageTag")).find? (fun t => !t.isEmpty)
 
@@ -511,9 +498,9 @@ def fromBuild (E : Env) (path : Str) (u : SUnit) : R SUnit := do
   let svc := renameSection svc (s "Quadlet") (s "X-Quadlet")
   let cmd0 := baseCmd E u sec ++ [s "build"]
     ++ (match lookup u sec (s "Pull") with | some p => if p.isEmpty then [] else [s "--pull=" ++ p] | none => [])
-    ++ addString u sec [("Arch","--arch"),("AuthFile","--authfile"),("Target","--target"),("Variant","--variant")]
-    ++ addBool u sec [("TLSVerify","--tls-verify"),("ForceRM","--force-rm")]
-    ++ addAllStrings u sec [("DNS","--dns"),("DNSOption","--dns-option"),("DNSSearch","--dns-search"),("GroupAdd","--group-add"),("ImageTag","--tag")]
+    ++ addString u sec Gen.tbl_from_build_unit_string_keys
+    ++ addBool u sec Gen.tbl_from_build_unit_bool_keys
+    ++ addAllStrings u sec Gen.tbl_from_build_unit_all_string_keys
     ++ addKeys "--annotation" (lookupAllKeyVal u sec (s "Annotation"))
     ++ addKeys "--env" (lookupAllKeyVal u sec (s "Environment"))
     ++ addKeys "--label" (lookupAllKeyVal u sec (s "Label"))
@@ -538,16 +525,7 @@ def fromBuild (E : Env) (path : Str) (u : SUnit) : R SUnit := do
 
 
 /-! ### .container -/
-def supportedContainer : List String :=
-  ["AddCapability","AddDevice","AddHost","Annotation","AutoUpdate","CgroupsMode","ContainerName","ContainersConfModule","DNS",
-   "DNSOption","DNSSearch","DropCapability","Entrypoint","Environment","EnvironmentFile","EnvironmentHost","Exec","ExposeHostPort",
-   "GIDMap","GlobalArgs","Group","GroupAdd","HealthCmd","HealthInterval","HealthOnFailure","HealthRetries","HealthStartPeriod",
-   "HealthStartupCmd","HealthStartupInterval","HealthStartupRetries","HealthStartupSuccess","HealthStartupTimeout","HealthTimeout",
-   "HostName","Image","IP","IP6","Label","LogDriver","LogOpt","Mask","Mount","Network","NetworkAlias","NoNewPrivileges","Notify",
-   "PidsLimit","PodmanArgs","Pod","PublishPort","Pull","ReadOnly","ReadOnlyTmpfs","RemapGid","RemapUid","RemapUidSize","RemapUsers",
-   "Rootfs","RunInit","SeccompProfile","SecurityLabelDisable","SecurityLabelFileType","SecurityLabelLevel","SecurityLabelNested",
-   "SecurityLabelType","Secret","ServiceName","ShmSize","StartWithPod","StopSignal","StopTimeout","SubGIDMap","SubUIDMap","Sysctl",
-   "Timezone","Tmpfs","UIDMap","Ulimit","Unmask","User","UserNS","VolatileTmp","Volume","WorkingDir"]
+def supportedContainer : List Str := Gen.SUPPORTED_CONTAINER_KEYS
 
 def isTemplate (name : Str) : Bool :=
   match splitOnce '@' (fileStem name) with
@@ -599,12 +577,9 @@ def resolveMount (E : Env) (unitPath : Str) (svc : SUnit) (m : Str) : Option (R 
       pure (commaJoin fields, svc))
 
 def healthArgs (u : SUnit) (sec : Str) : List Str :=
-  [("HealthCmd","cmd"),("HealthInterval","interval"),("HealthOnFailure","on-failure"),("HealthRetries","retries"),
-   ("HealthStartPeriod","start-period"),("HealthTimeout","timeout"),("HealthStartupCmd","startup-cmd"),
-   ("HealthStartupInterval","startup-interval"),("HealthStartupRetries","startup-retries"),
-   ("HealthStartupSuccess","startup-success"),("HealthStartupTimeout","startup-timeout")].flatMap fun (k, a) =>
-    match lookup u sec (s k) with
-    | some v => if v.isEmpty then [] else [s "--health-" ++ s a, v]
+  Gen.tbl_handle_health_key_arg_map.flatMap fun (k, a) =>
+    match lookup u sec k with
+    | some v => if v.isEmpty then [] else [s "--health-" ++ a, v]
     | none => []
 
 def handleUser (u : SUnit) (sec : Str) : R (List Str) :=
@@ -660,12 +635,9 @@ def fromContainer (E : Env) (path : Str) (u : SUnit) : Option (R (SUnit × Optio
   let svc := addS svc "Service" "Delegate" (s "yes")
   let cg := match lookup u sec (s "CgroupsMode") with | some c => if c.isEmpty then s "split" else c | none => s "split"
   let cmd := cmd ++ [s "--cgroups", cg]
-    ++ addString u sec [("Timezone","--tz"),("PidsLimit","--pids-limit"),("ShmSize","--shm-size"),("Entrypoint","--entrypoint"),
-        ("WorkingDir","--workdir"),("IP","--ip"),("IP6","--ip6"),("HostName","--hostname"),("StopSignal","--stop-signal"),
-        ("StopTimeout","--stop-timeout"),("Pull","--pull")]
-    ++ addAllStrings u sec [("NetworkAlias","--network-alias"),("Ulimit","--ulimit"),("DNS","--dns"),("DNSOption","--dns-option"),
-        ("DNSSearch","--dns-search"),("GroupAdd","--group-add"),("AddHost","--add-host"),("Tmpfs","--tmpfs")]
-    ++ addBool u sec [("RunInit","--init"),("EnvironmentHost","--env-host"),("ReadOnlyTmpfs","--read-only-tmpfs")]
+    ++ addString u sec Gen.tbl_from_container_unit_string_keys
+    ++ addAllStrings u sec Gen.tbl_from_container_unit_all_string_keys
+    ++ addBool u sec Gen.tbl_from_container_unit_bool_keys
   let (nets, svc) ← handleNetworks E u sec svc
   let cmd := cmd ++ nets
   let (cmd, svc) ← (match lookup u (s "Service") (s "Type") with
